@@ -39,6 +39,22 @@ theorem floor_exact (a : NumI) (ha : Canon a) (h0 : 0 ≤ a.up) :
     floor a = (Rat.divInt a.up a.down).floor :=
   HyN.floor_exact a ha h0
 
+/-- Sums and products do not depend on the order of the operands or on the bracketing — not only as values but as
+the stored numerator/denominator pair, hence also in every text printed from them. (The interpreter adds the popped
+values one after the other; any other order would print the same.) -/
+theorem add_comm_fields (a b : NumI) (ha : Canon a) (hb : Canon b) : add a b = add b a :=
+  HyN.add_comm_fields a b ha hb
+theorem mul_comm_fields (a b : NumI) (ha : Canon a) (hb : Canon b) : mul a b = mul b a :=
+  HyN.mul_comm_fields a b ha hb
+theorem add_assoc_fields (a b c : NumI) (ha : Canon a) (hb : Canon b) (hc : Canon c) :
+    add (add a b) c = add a (add b c) :=
+  HyN.add_assoc_fields a b c ha hb hc
+theorem mul_assoc_fields (a b c : NumI) (ha : Canon a) (hb : Canon b) (hc : Canon c) :
+    mul (mul a b) c = mul a (mul b c) :=
+  HyN.mul_assoc_fields a b c ha hb hc
+
+example : add (add ⟨1, 2⟩ ⟨1, 3⟩) ⟨1, 6⟩ = ⟨1, 1⟩ ∧ add ⟨1, 2⟩ (add ⟨1, 3⟩ ⟨1, 6⟩) = ⟨1, 1⟩ := by decide
+
 /-- `Num::floor` on every canonical value: the floor for a non-negative value; for a negative one the truncation
 toward zero `-⌊-q⌋` (`&self.up / &self.down` is `BigNum`'s truncating division). The interpreter applies `floor`
 only to non-negative values (`push_stack_wrap` negates first); this says what the function is everywhere. -/
